@@ -9,6 +9,7 @@ CONSTANTS
   Ops = {"create", "createfault", "attr", "data", "time", "link", "delete"}
   Faults = {"DuplicateName", "BadName", "NoneType", "WrongKind", "ForeignBlock", "NotMember", "Required", "NotFound"}
   Script <- NoScript
+  CopyKeep = {}
 VIEW View
 ACTION_CONSTRAINT Export
 CHECK_DEADLOCK FALSE
